@@ -34,6 +34,12 @@ mod lsutil;
 #[path = "../ls/c30.rs"]
 mod c30;
 
+#[path = "../ls/c34.rs"]
+mod c34;
+
+#[path = "../ls/c27.rs"]
+mod c27;
+
 /// Report of harness/build.rs about the checked-in generated parser (empty = up to date).
 const STALE_REPORT: &str = include_str!(concat!(env!("OUT_DIR"), "/ls_stale_report.txt"));
 
@@ -45,6 +51,8 @@ fn main() {
     }
     match args[1].as_str() {
         "c30" => c30::cli(&args[2..]),
+        "c34" => c34::cli(&args[2..]),
+        "c27" => c27::cli(&args[2..]),
         "stale" => {
             if STALE_REPORT.is_empty() {
                 println!("fresh");
